@@ -162,8 +162,15 @@ namespace vh
             if (s.has("h"))
                 for (size_t i = 0; i < n; ++i)
                     hgiven.flat(i) = s["h"][i].as_double();
+            // "elev": "erosion" (eroder reused): the array OBJECT returned by the eroder's previous call is the
+            // elevation argument (aliasing of an argument with the eroder's own buffer)
+            long long eid0 = s.get_int("eid", -1);
+            const bool alias_erosion = s.get_str("elev", "out") == "erosion" && eid0 >= 0 && h.last_erosion.count(eid0)
+                                       && h.eroders.count(eid0);
             const xt::xarray<double>& elev
-                = s.has("h") ? hgiven : (s.get_str("elev", "out") == "in" ? h.z : *h.out);
+                = alias_erosion ? *h.last_erosion[eid0]
+                                : (s.has("h") ? hgiven : (s.get_str("elev", "out") == "in" ? h.z : *h.out));
+            const xt::xarray<double> elev_given = elev;   // the values handed in (the argument may alias the result)
             // drainage area: accumulate(1) or explicit integers
             xt::xarray<double> area = s.has("A") ? grid_array<G, double>(*grid, 0.0) : h.fg->accumulate(1.0);
             if (s.has("A"))
@@ -243,11 +250,13 @@ namespace vh
             {
                 note("spl erode");
                 const auto& e = er->erode(elev, area, dt);
+                if (eid0 >= 0)
+                    h.last_erosion[eid0] = &e;
                 std::vector<double> hv(n), ev(n), hn(n), hnu(n);
                 std::vector<long long> ez(n), eq(n), ecls(n), hi(n), hx(n);
                 for (size_t i = 0; i < n; ++i)
                 {
-                    hv[i] = elev.flat(i);
+                    hv[i] = elev_given.flat(i);
                     ev[i] = e.flat(i);
                     hn[i] = hv[i] - ev[i];
                     // upper enclosure of the new elevation: the erosion is returned rounded at the
@@ -277,7 +286,7 @@ namespace vh
                         for (size_t r = 0; r < rc; ++r)
                         {
                             size_t j = im.receivers()(i, r);
-                            fl = std::min(fl, elev.flat(j) - e.flat(j));
+                            fl = std::min(fl, elev_given.flat(j) - e.flat(j));
                         }
                         double cand = hv[i] - (fl + std::numeric_limits<double>::min());
                         lim[i] = (hv[i] > fl && same_bits(cand, ev[i])) ? 1 : 0;
